@@ -75,7 +75,7 @@ def run(ctx, chk):
         chk.ob("C10.loader", "%s reads %d bytes" % (l, loader_ext(l)), loader_ext(l) in (2, 4, 8), "%s:%d" % (f.file, f.line), fn=l, nontrivial=False)
 
     nm = mirror(chk, "C10.mirror", "C10.simple", prog, eff, encs, by_byte, enumv, loader_ext)
-    chk.floor("C10.mirror", "encoder byte -> decoder arm links", nm, 250)
+    chk.floor("C10.mirror", "encoder byte -> decoder arm links", nm, 200)
     chk.exhaustive = True
 
 
